@@ -40,12 +40,15 @@ fn mix(a: u64, b: u64, c: u64, d: u64) -> u64 {
 // =============================================================================================
 // C17
 
-pub const C17_RULE: &str = "get_range cube: blob lengths L in {0,1,2,3,5,16,4095,4096,4097,8191,8192,8193,65537}; for L<=5 ALL (start,end) in [0,L+2]^2 (exhaustive); for every L all pairs from the boundary set {0,1,L-1,L,L+1,2^32-1,2^32,2^32+1,2^63-1,2^63,2^64-2,2^64-1}; plus proptest-random (L<=100000, edge-biased start/end) and a large part (L in {128Ki,128Ki+1,256Ki,300001,512Ki,1Mi+1} or random in [110000,1.2M]; start/end at fractions of L, around multiples of 64 KiB and 128 KiB, around L and near 0, so that ranges longer than 128 KiB that start and end strictly inside the blob occur in most cases). Oracle: start<=end => exactly content[min(start,L)..min(end,L)]; start>end and start<L => Err; get_size==L; reader streams L bytes; absent key => Ok(None); no panic; peak heap during get_range <= L + 8 KiB (counting allocator). non-trivial = triple on a face of the cube (start==L, end==L, start==end, end>=2^32, L==0, start>end); distinct by (L,start,end)";
+pub const C17_RULE: &str = "get_range cube: blob lengths L in {0,1,2,3,5,16,4095,4096,4097,8191,8192,8193,65537}, each on a fresh key and on a key that held a content of length L+3, L/2 or 0 before (the answer must depend on the current content only); for L<=5 ALL (start,end) in [0,L+2]^2 (exhaustive); for every L all pairs from the boundary set {0,1,L-1,L,L+1,2^32-1,2^32,2^32+1,2^63-1,2^63,2^64-2,2^64-1}; plus proptest-random (L<=100000, edge-biased start/end) and a large part (L in {128Ki,128Ki+1,256Ki,300001,512Ki,1Mi+1} or random in [110000,1.2M]; start/end at fractions of L, around multiples of 64 KiB and 128 KiB, around L and near 0, so that ranges longer than 128 KiB that start and end strictly inside the blob occur in most cases). Oracle: start<=end => exactly content[min(start,L)..min(end,L)]; start>end and start<L => Err; get_size==L; reader streams L bytes; absent key => Ok(None); no panic; peak heap during get_range <= L + 8 KiB (counting allocator). non-trivial = triple on a face of the cube (start==L, end==L, start==end, end>=2^32, L==0, start>end); distinct by (L,start,end)";
 
 #[derive(Clone, Debug, Serialize, Deserialize)]
 pub struct C17Case {
     pub len: usize,
     pub pairs: Vec<(u64, u64)>,
+    /// the key held another content of this length before (overwritten by the content under test)
+    #[serde(default)]
+    pub prev: Option<usize>,
 }
 
 fn c17_run(case: &C17Case) -> R<CaseMeta> {
@@ -54,6 +57,11 @@ fn c17_run(case: &C17Case) -> R<CaseMeta> {
     let cas = Cas::<u64>::open(scratch.db(), cfg_n(100, false)).map_err(|e| Fail::new("open-err", format!("{e:?}")))?;
     let l = case.len as u64;
     let content = gen_content(case.len as u64, case.len);
+    if let Some(pl) = case.prev {
+        let mut tx = cas.put(7).map_err(|e| Fail::new("op-err/put", format!("{e:?}")))?;
+        tx.write(&gen_content(9_000_000 + pl as u64, pl)).map_err(|e| Fail::new("op-err/write", format!("{e:?}")))?;
+        tx.finish().map_err(|e| Fail::new("op-err/finish", format!("{e:?}")))?;
+    }
     let mut tx = cas.put(7).map_err(|e| Fail::new("op-err/put", format!("{e:?}")))?;
     tx.write(&content).map_err(|e| Fail::new("op-err/write", format!("{e:?}")))?;
     tx.finish().map_err(|e| Fail::new("op-err/finish", format!("{e:?}")))?;
@@ -107,6 +115,9 @@ fn c17_run(case: &C17Case) -> R<CaseMeta> {
         }
     }
     m.class(&format!("L_{}", if case.len <= 5 { "small" } else if case.len < 8192 { "mid" } else if case.len <= 110_000 { "big" } else { "huge" }));
+    if case.prev.is_some() {
+        m.class("key_held_another_length_before");
+    }
     if case.pairs.iter().any(|&(s, e)| s <= e && e < l && e - s > 131_072) {
         m.class("range_gt_128k_ending_inside");
     }
@@ -136,7 +147,13 @@ pub fn run_c17(ctx: &Ctx, acc: &Mutex<Acc>) -> Option<Violation> {
         }
         pairs.sort();
         pairs.dedup();
-        items.push(C17Case { len: l, pairs });
+        items.push(C17Case { len: l, pairs: pairs.clone(), prev: None });
+        // the same cube on a key that held a longer / a shorter / an empty content before
+        for pl in [l + 3, l / 2, 0] {
+            if pl != l {
+                items.push(C17Case { len: l, pairs: pairs.clone(), prev: Some(pl) });
+            }
+        }
     }
     if let Some(v) = enumerate(ctx, acc, "cube", "C17", items, c17_run) {
         return Some(v);
@@ -152,15 +169,15 @@ pub fn run_c17(ctx: &Ctx, acc: &Mutex<Acc>) -> Option<Violation> {
         cases,
         200,
         move |_| {
-            (prop_oneof![3 => 0usize..40, 3 => 4000usize..8300, 2 => 0usize..100_000], vec((rv(), rv()), 20..60), vec(0u64..64, 0..20))
-                .prop_map(|(len, mut pairs, near)| {
+            (prop_oneof![3 => 0usize..40, 3 => 4000usize..8300, 2 => 0usize..100_000], vec((rv(), rv()), 20..60), vec(0u64..64, 0..20), proptest::option::weighted(0.4, prop_oneof![0usize..40, 0usize..100_000]))
+                .prop_map(|(len, mut pairs, near, prev)| {
                     // pairs near the length
                     for (i, d) in near.iter().enumerate() {
                         let a = (len as u64 + d).saturating_sub(32);
                         let b = (len as u64 + near[(i + 1) % near.len()]).saturating_sub(32);
                         pairs.push((a, b));
                     }
-                    C17Case { len, pairs }
+                    C17Case { len, pairs, prev }
                 })
         },
         c17_run,
@@ -192,7 +209,7 @@ pub fn run_c17(ctx: &Ctx, acc: &Mutex<Acc>) -> Option<Violation> {
                     }
                 };
                 let pairs: Vec<BoxedStrategy<(u64, u64)>> = raw.iter().map(|&(a, b, ka, kb)| (pt(a, ka), pt(b, kb)).prop_map(|(x, y)| if x <= y || (x + y) % 5 == 0 { (x, y) } else { (y, x) }).boxed()).collect();
-                pairs.prop_map(move |pairs| C17Case { len, pairs })
+                pairs.prop_map(move |pairs| C17Case { len, pairs, prev: if len % 3 == 0 { Some(len / 3 + 7) } else { None } })
             })
         },
         c17_run,
@@ -755,6 +772,137 @@ pub fn run_c02_large(ctx: &Ctx, acc: &Mutex<Acc>) -> Option<Violation> {
 
 pub fn replay_c02l(case: serde_json::Value) -> R<CaseMeta> {
     c02l_run(&serde_json::from_value(case).expect("harness: bad C02L case"))
+}
+
+
+// ---------------------------------------------------------------------------------------------
+// C13 / C18 — very large transactions (tens of MiB): abandoned (C13) or finished (C18)
+
+pub const VLT_RULE_C13: &str = "very large abandoned transactions: on a store that holds a committed value under the key and one other key, a transaction writes 1-64 MiB (+0..8191 bytes) in chunks of 64 KiB / 1 MiB / 4 MiB, then 0-3 small writes of 1-8191 bytes, and is dropped without finish. Oracle: index and log files are byte-identical to before, the listing of cas/ is unchanged, staging/ is empty, both keys read their old bytes; after a reopen the same holds. non-trivial = >=16 MiB written with a small write at the end; distinct by case hash";
+pub const VLT_RULE_C18: &str = "very large contents: 1-64 MiB (+0..8191 bytes) delivered in chunks of 64 KiB / 1 MiB / 4 MiB followed by 0-3 small writes of 1-8191 bytes and finished. Oracle: the committed item is {one-shot blake3 of the whole content, length}, the file sits at the harness-derived path with exactly the bytes, nothing else is under cas/, staging/ is empty. non-trivial = >=16 MiB; distinct by case hash";
+
+#[derive(Clone, Debug, Serialize, Deserialize)]
+pub struct VltCase {
+    pub mib: u8,
+    pub delta: u16,
+    pub chunk_kib: u16,
+    pub tails: Vec<u16>,
+    pub finish: bool,
+}
+
+fn vlt_run(case: &VltCase) -> R<CaseMeta> {
+    let mut m = CaseMeta { evals: 1, ..Default::default() };
+    let scratch = Scratch::new("vlt");
+    let db = scratch.db();
+    let cas = Cas::<String>::open(&db, cfg_n(100, false)).map_err(|e| Fail::new("open-err", format!("{e:?}")))?;
+    let old_a = gen_content(1, 5000);
+    let old_b = gen_content(2, 17);
+    for (k, c) in [("a", &old_a), ("b", &old_b)] {
+        let mut tx = cas.put(k.to_string()).map_err(|e| Fail::new("op-err/put", format!("{e:?}")))?;
+        tx.write(c).map_err(|e| Fail::new("op-err/write", format!("{e:?}")))?;
+        tx.finish().map_err(|e| Fail::new("op-err/finish", format!("{e:?}")))?;
+    }
+    let tails_len: usize = case.tails.iter().map(|t| (*t as usize).clamp(1, 8191)).sum();
+    let head_len = case.mib as usize * 1024 * 1024 + case.delta as usize % 8192;
+    let content = gen_content(77 + case.mib as u64, head_len + tails_len);
+    let files_before: BTreeMap<String, u64> = list_files(&db.join("cas"));
+    let meta_before: BTreeMap<String, Vec<u8>> = snapshot_tree(&db).into_iter().filter(|(k, _)| !k.starts_with("cas/") && !k.starts_with("staging/")).collect();
+    {
+        let mut tx = cas.put("a".to_string()).map_err(|e| Fail::new("op-err/put", format!("{e:?}")))?;
+        let chunk = (case.chunk_kib as usize).max(1) * 1024;
+        let mut off = 0usize;
+        while off < head_len {
+            let l = chunk.min(head_len - off);
+            tx.write(&content[off..off + l]).map_err(|e| Fail::new("op-err/write", format!("{e:?}")))?;
+            off += l;
+        }
+        for t in &case.tails {
+            let l = (*t as usize).clamp(1, 8191);
+            tx.write(&content[off..off + l]).map_err(|e| Fail::new("op-err/write", format!("{e:?}")))?;
+            off += l;
+        }
+        if case.finish {
+            tx.finish().map_err(|e| Fail::new("op-err/finish", format!("{e:?}")))?;
+        } else {
+            drop(tx);
+        }
+    }
+    let what = format!("{} MiB + {} bytes in {} KiB chunks, then small writes {:?}", case.mib, case.delta % 8192, case.chunk_kib, case.tails);
+    let staging: Vec<String> = list_files(&db.join("staging")).into_keys().collect();
+    if case.finish {
+        let h = b3(&content);
+        match cas.read_index_state().get_item(&"a".to_string()) {
+            Some(i) if *i.blob_hash.as_bytes() == h && i.blob_size == content.len() as u64 => {}
+            other => fail!("ident/item", "content of {what}: committed item {other:?}, expected hash {} size {}", &hexs(&h)[..12], content.len()),
+        }
+        match std::fs::read(db.join("cas").join(rel_path_of(&h))) {
+            Ok(d) if d == content => {}
+            Ok(d) => fail!("ident/file-bytes", "content of {what}: the file at the derived path holds {} other bytes", d.len()),
+            Err(e) => fail!("ident/file-missing", "content of {what}: no file at the derived path: {e}"),
+        }
+        let files: Vec<String> = list_files(&db.join("cas")).into_keys().collect();
+        let mut want = vec![rel_path_of(&h), rel_path_of(&b3(&old_b))];
+        want.sort();
+        if files != want {
+            fail!("ident/extra-files", "after the put cas/ holds {files:?}");
+        }
+        if !staging.is_empty() {
+            fail!("ident/staging-leftover", "after finish staging/ holds {staging:?}");
+        }
+    } else {
+        if !staging.is_empty() {
+            fail!("abort/staging-leftover", "after dropping a transaction of {what} staging/ still holds {staging:?}");
+        }
+        if list_files(&db.join("cas")) != files_before {
+            fail!("abort/abort-changed-cas", "dropping a transaction of {what} changed the files under cas/");
+        }
+        let meta_after: BTreeMap<String, Vec<u8>> = snapshot_tree(&db).into_iter().filter(|(k, _)| !k.starts_with("cas/") && !k.starts_with("staging/")).collect();
+        if meta_after != meta_before {
+            fail!("abort/abort-changed-log-or-index", "dropping a transaction of {what} changed index / log / settings files");
+        }
+        let check_values = |handle: &Cas<String>, round: &str| -> R<()> {
+            for (k, c) in [("a", &old_a), ("b", &old_b)] {
+                match handle.get(&k.to_string()) {
+                    Ok(Some(b)) if b[..] == c[..] => {}
+                    other => fail!("abort/value-changed", "after an abandoned transaction of {what} ({round}) get({k}) = {:?}", other.map(|o| o.map(|b| b.len()))),
+                }
+            }
+            Ok(())
+        };
+        check_values(&cas, "same handle")?;
+        drop(cas);
+        let h2 = Cas::<String>::open(&db, cfg_n(100, true)).map_err(|e| Fail::new(format!("abort/reopen-fails/{}", err_path(&e)), format!("reopen after an abandoned transaction of {what}: {e:?}")))?;
+        check_values(&h2, "after a reopen")?;
+        let st: Vec<String> = list_files(&db.join("staging")).into_keys().collect();
+        if !st.is_empty() {
+            fail!("abort/staging-leftover", "after a reopen staging/ holds {st:?}");
+        }
+    }
+    if case.mib >= 16 && (case.finish || !case.tails.is_empty()) {
+        m.nontrivial.push(hash_json(case));
+    }
+    m.class(&format!("vlt_{}mib", case.mib));
+    Ok(m)
+}
+
+fn vlt_strategy(finish: bool) -> impl Strategy<Value = VltCase> {
+    (
+        prop_oneof![2 => Just(1u8), 2 => Just(4u8), 1 => Just(8u8), 3 => Just(16u8), 2 => Just(17u8), 2 => Just(32u8), 1 => Just(33u8), 1 => Just(64u8)],
+        prop_oneof![Just(0u16), 0u16..8192],
+        prop_oneof![Just(64u16), Just(1024u16), Just(4096u16)],
+        vec(prop_oneof![2 => 1u16..200, 1 => 1u16..8192], 0..4),
+    )
+        .prop_map(move |(mib, delta, chunk_kib, tails)| VltCase { mib, delta, chunk_kib, tails, finish })
+}
+
+pub fn run_vlt(ctx: &Ctx, acc: &Mutex<Acc>, finish: bool) -> Option<Violation> {
+    let cases = ctx.tier.scale(1, 6);
+    // at most 4 such cases at a time: each holds up to 2 x 64 MiB
+    campaign(ctx, acc, if finish { "very-large-contents" } else { "very-large-abandoned" }, "VLT", cases, 12, |_| vlt_strategy(finish), vlt_run)
+}
+
+pub fn replay_vlt(case: serde_json::Value) -> R<CaseMeta> {
+    vlt_run(&serde_json::from_value(case).expect("harness: bad VLT case"))
 }
 
 // =============================================================================================
